@@ -69,6 +69,19 @@ class C07(vlib.Check):
                 t2 = rng.choice([x for x in targets if x <= t])
                 self.count("two-step")
                 yield {"t": "fold2", "fp": fp, "mid": t, "bits": t2, "method": method}
+        # several folds of ONE object (the linked results are cached on it): each must equal the fold of a fresh copy
+        for _ in range(120 if self.tier == "quick" else 1500):
+            bits = rng.choice([64, 256, 1024, 4096, 2 ** 32])
+            fp = gen_fp(rng, bits=bits, kind=rng.choice(["count", "float", "count", "bit"]))
+            tg = [bits >> k for k in range(1, 7) if (bits >> k) >= 1]
+            steps = []
+            b, method = rng.choice(tg), rng.choice([0, 1])
+            for _k in range(rng.randrange(2, 5)):
+                if rng.random() < 0.35:
+                    b, method = rng.choice(tg), rng.choice([0, 1])
+                steps.append({"bits": b, "method": method, "linked": rng.random() < 0.85, "cm": rng.choice(["sum", None, "max", "min"])})
+            self.count("fold-sequence-on-one-object")
+            yield {"t": "foldseq", "fp": fp, "steps": steps}
         # the fingerprinter route and the database route
         from harness import molgen as MG
         refs = MG.all_refs()
@@ -141,6 +154,8 @@ class C07(vlib.Check):
                 return [dump_fp(folded[i]) for i in range(len(case["fps"]))]
             return attempt(go)
         f = make_fp(case["fp"])
+        if case["t"] == "foldseq":
+            return [attempt(lambda st=st: self._fold(f, st), dump_fp) for st in case["steps"]]
         if case["t"] == "fold":
             res = attempt(lambda: self._fold(f, case), lambda g: {"fp": dump_fp(g), "maps": dump_maps(f, g)})
             return {"res": res, "src_after": dump_fp(f)}
@@ -158,6 +173,9 @@ class C07(vlib.Check):
             return [{"op": "fp.fold", "fp": r["ok"]["unfolded"], "bits": case["bits"], "method": 0}]
         if case["t"] == "dbfold":
             return [{"op": "fp.fold", "fp": f, "bits": case["bits"], "method": 0} for f in case["fps"]]
+        if case["t"] == "foldseq":
+            return [{"op": "fp.fold", "fp": case["fp"], "bits": st["bits"], "method": st["method"],
+                     "counts_method": st.get("cm") if case["fp"]["kind"] != "bit" else None} for st in case["steps"]]
         if case["t"] == "fold":
             cm = case.get("cm") if case["fp"]["kind"] != "bit" else None
             return [{"op": "fp.fold", "fp": case["fp"], "bits": case["bits"], "method": case["method"], "counts_method": cm}]
@@ -169,6 +187,8 @@ class C07(vlib.Check):
         if case["t"] == "fprinter":
             return answers[0]
         if case["t"] == "dbfold":
+            return answers
+        if case["t"] == "foldseq":
             return answers
         if case["t"] == "fold":
             return {"res": answers[0], "src_after": case["fp"]}
@@ -190,6 +210,9 @@ class C07(vlib.Check):
             return None if a_impl["ok"] == want else {"impl": a_impl["ok"], "model": want}
         if case["t"] == "fold":
             return super().compare(case, a_impl, a_model)
+        if case["t"] == "foldseq":
+            want = [{"ok": a["ok"]["fp"]} if "ok" in a else a for a in a_model]
+            return super().compare(case, a_impl, want)
         # two-step: the model's second step is run on the model's own intermediate
         mid, one = a_model["mid"], a_model["one"]
         if "ok" in mid:
@@ -229,6 +252,14 @@ class C07(vlib.Check):
         spec = case["fp"]
         f = make_fp(spec)
         before = dump_fp(f)
+        if case["t"] == "foldseq":
+            for k, st in enumerate(case["steps"]):
+                got = attempt(lambda: self._fold(f, st), dump_fp)
+                fresh = attempt(lambda: self._fold(make_fp(spec), st), dump_fp)
+                if got != fresh:
+                    return {"key": "fold-depends-on-earlier-folds", "what": "step %d (%s) on an object already folded by %s differs from the same fold of a fresh copy" % (
+                        k, st, case["steps"][:k]), "got": got, "fresh": fresh}
+            return None
         a, b, method = spec["bits"], case["bits"], case["method"]
         if case["t"] == "fold2":
             try:
@@ -313,6 +344,8 @@ class C07(vlib.Check):
             return vlib.canon(case) if "ok" in a_impl and a_impl["ok"] else None
         if case["t"] == "fold" and "ok" in a_impl.get("res", {}) and case["fp"]["idx"]:
             return (case["fp"]["kind"], case["fp"]["bits"], case["bits"], case["method"], tuple(case["fp"]["idx"]))
+        if case["t"] == "foldseq" and case["fp"]["idx"]:
+            return vlib.canon(case)
         if case["t"] == "fold2" and case["fp"]["idx"]:
             return ("2", case["fp"]["kind"], case["fp"]["bits"], case["mid"], case["bits"], case["method"], tuple(case["fp"]["idx"]))
         return None
